@@ -341,6 +341,9 @@ pub fn gen_prog_with_cfg(rng: &mut Rng, k: &Knobs, cfg: ProgCfg) -> (ProgCase, G
             n_audio = want;
             let use_enc_a = use_enc || rng.chance(k.enc_api_pct, 200);
             let mut t = first_v + astart_off;
+            let vary_samples = rng.chance(1, 3);
+            let mut enc_step = 0.0f64;
+            let _ = &mut enc_step;
             // audio clock style: nominal, steady skew (e.g. 20.5 ms for 20 ms packets), random jitter within +-1 ms, irregular
             let astyle = if rng.chance(k.audio_jitter_pct, 100) { rng.range(1, 3) } else { 0 };
             let skew = *rng.pick(&[1.025f64, 0.98, 1.0005, 1.04]);
@@ -348,7 +351,16 @@ pub fn gen_prog_with_cfg(rng: &mut Rng, k: &Knobs, cfg: ProgCfg) -> (ProgCase, G
                 let size = if huge { rng.range(1, 8) as usize } else { rng.range(1, 400) as usize };
                 let f = frames::build_audio(rng, ac, next_stamp(), size, k.decorate);
                 let op = if use_enc_a && astart_off == 0.0 && first_v == 0.0 {
-                    Op::EncAudio { data: Hex(f.data), samples: if ac == ACodec::Opus { 960 } else { 1024 } }
+                    // packet durations may change mid-stream (Opus 2.5 .. 60 ms; AAC 960 / 1024 / 2048 per frame)
+                    let samples = if !vary_samples {
+                        if ac == ACodec::Opus { 960 } else { 1024 }
+                    } else if ac == ACodec::Opus {
+                        *rng.pick(&[120u32, 240, 480, 960, 960, 1920, 2880])
+                    } else {
+                        *rng.pick(&[1024u32, 1024, 960, 2048])
+                    };
+                    enc_step = samples as f64 / arate as f64;
+                    Op::EncAudio { data: Hex(f.data), samples }
                 } else {
                     Op::Audio { pts: F(t), data: Hex(f.data) }
                 };
@@ -849,7 +861,15 @@ pub fn gen_frag(rng: &mut Rng, k: &FragKnobs) -> FragCase {
     let via_builder = rng.chance(2, 3);
     let ps = |rng: &mut Rng, lo: u64, hi: u64| -> Hex {
         let n = rng.range(lo, hi) as usize;
-        Hex(rng.bytes(n))
+        let mut v = rng.bytes(n);
+        // the forms callers really pass: with an Annex B start code in front, with trailing zero bytes
+        match rng.below(8) {
+            0 => v.splice(0..0, [0u8, 0, 1]).for_each(drop),
+            1 => v.splice(0..0, [0u8, 0, 0, 1]).for_each(drop),
+            2 => v.extend_from_slice(&[0u8; 2][..rng.range(1, 2) as usize]),
+            _ => {}
+        }
+        Hex(v)
     };
     let mut cfg = FragCfg {
         via_builder,
